@@ -519,33 +519,51 @@ pub fn run(ctx: &'static Ctx) {
         });
     }
     // G7: presence tags and selectors: up to four bytes of an all-zero input set to 01 / 02 within
-    // the first 32 (thorough: 40) positions after each variant prefix; nested optional members
-    // are reached through their tag bytes, small integers through their low byte
+    // the first 32 positions after each variant prefix (40 for the two requests with nested
+    // optional structures; thorough: 40 / 48 and three values); nested optional members are
+    // reached through their tag bytes, small integers through their low byte
     {
-        let window: usize = if ctx.thorough() { 40 } else { 32 };
         let vals: &[u8] = if ctx.thorough() { &[0x01, 0x02, 0x03] } else { &[0x01, 0x02] };
-        let mut combos: Vec<Vec<(u8, u8)>> = vec![vec![]];
-        let mut frontier: Vec<Vec<(u8, u8)>> = vec![vec![]];
-        for _ in 0..4 {
-            let mut next = Vec::new();
-            for c in &frontier {
-                let start = c.last().map_or(0, |x| x.0 as usize + 1);
-                for pos in start..window {
-                    for v in vals {
-                        let mut d = c.clone();
-                        d.push((pos as u8, *v));
-                        next.push(d);
+        let combos_for = |window: usize| -> Vec<Vec<(u8, u8)>> {
+            let mut combos: Vec<Vec<(u8, u8)>> = vec![vec![]];
+            let mut frontier: Vec<Vec<(u8, u8)>> = vec![vec![]];
+            for _ in 0..4 {
+                let mut next = Vec::new();
+                for c in &frontier {
+                    let start = c.last().map_or(0, |x| x.0 as usize + 1);
+                    for pos in start..window {
+                        for v in vals {
+                            let mut d = c.clone();
+                            d.push((pos as u8, *v));
+                            next.push(d);
+                        }
                     }
                 }
+                combos.extend(next.iter().cloned());
+                frontier = next;
             }
-            combos.extend(next.iter().cloned());
-            frontier = next;
+            combos
+        };
+        let (w_small, w_big) = if ctx.thorough() { (40, 48) } else { (32, 40) };
+        let small = combos_for(w_small);
+        let big = combos_for(w_big);
+        // MakeCredential and GetAssertion are variants 0 and 1 of the CTAP2 generator (prefix
+        // indices 3, 4) and of the CTAP2 arm of the combined one (16, 17)
+        let nested: [usize; 4] = [3, 4, 16, 17];
+        let mut offs: Vec<u64> = Vec::new();
+        let mut total = 0u64;
+        for pi in 0..prefixes.len() {
+            offs.push(total);
+            total += if nested.contains(&pi) { big.len() } else { small.len() } as u64;
         }
-        let n = combos.len() as u64;
-        let cr = &combos;
-        sweep(ctx, "G7: up to four tag / selector bytes set in an all-zero input after each variant prefix", prefixes.len() as u64 * n, "26 prefixes x every set of <= 4 positions among the first 32 (thorough: 40) x values {01, 02} (thorough: {01, 02, 03}) on 256 zero bytes", move |idx, l| {
-            let (gen, p) = &pr[(idx / n) as usize];
-            let c = &cr[(idx % n) as usize];
+        let (sr, br, or) = (&small, &big, &offs);
+        sweep(ctx, "G7: up to four tag / selector bytes set in an all-zero input after each variant prefix", total, "26 prefixes x every set of <= 4 positions among the first 32 (MakeCredential / GetAssertion: 40; thorough: 40 / 48) x values {01, 02} (thorough: {01, 02, 03}) on 256 zero bytes", move |idx, l| {
+            let pi = match or.binary_search(&idx) {
+                Ok(i) => i,
+                Err(i) => i - 1,
+            };
+            let (gen, p) = &pr[pi];
+            let c = if nested.contains(&pi) { &br[(idx - or[pi]) as usize] } else { &sr[(idx - or[pi]) as usize] };
             thread_local! { static BUF: std::cell::RefCell<Vec<u8>> = std::cell::RefCell::new(Vec::with_capacity(300)); }
             BUF.with(|buf| {
                 let mut input = buf.borrow_mut();
